@@ -802,6 +802,21 @@ def _res_map_err(eng, st, args, ci):
     return _fork_on_result(eng, st, v, lambda s, x: [(s, 'ret', Enum('Result', 0, {0: Tup([x])}))], on_err)
 
 
+@intrinsic(r'^((std|core)::result::)?Result::<.*>::unwrap_or_else::<', 'Result::unwrap_or_else (closure body = real MIR)')
+def _res_unwrap_or_else(eng, st, args, ci):
+    v, f = args
+    return _fork_on_result(eng, st, v, lambda s, x: [(s, 'ret', x)], lambda s, e: eng.call_value(s, f, [e], ci.dest_ty))
+
+
+@intrinsic(r'^((std|core)::result::)?Result::<.*>::(is_ok_and|is_err_and)::<', 'Result::{is_ok_and,is_err_and} (closure body = real MIR)')
+def _res_is_and(eng, st, args, ci):
+    v, f = args
+    ok = 'is_ok_and' in ci.func
+    no = lambda s, x: [(s, 'ret', z3.BoolVal(False))]
+    yes = lambda s, x: eng.call_value(s, f, [x], ci.dest_ty)
+    return _fork_on_result(eng, st, v, yes if ok else no, no if ok else yes)
+
+
 @intrinsic(r'^((std|core)::option::)?Option::<.*>::map_or::<', 'Option::map_or (closure body = real MIR)')
 def _opt_map_or(eng, st, args, ci):
     v, d, f = args
